@@ -16,7 +16,7 @@ Inductive outcome (a : core) : core * list resp -> Prop :=
 | O_ok b : same_counts a b -> outcome a (send_ok b)
 | O_err b m : same_counts a b -> a_state b = a_state a -> a_authorized b = a_authorized a -> outcome a (b, [R_Error m])
 | O_data b d : same_counts a b -> a_state b = WaitingForData -> outcome a (b, [R_Data d])
-| O_crash b : outcome a (crash b)
+| O_crash b : same_counts a b -> outcome a (crash b)
 | O_disc : outcome a (set_state a NeedDisconnect, [])
 | O_authd : a_state a = WaitingForBegin -> outcome a (set_state a Authenticated, [])
 | O_agree : a_state a = WaitingForBegin -> outcome a (set_state (set_fd_negotiated a true) WaitingForBegin, [R_AgreeFd])
@@ -30,13 +30,13 @@ Inductive mech_outcome (a : core) : core * list resp -> Prop :=
 | MO_ok b : same_counts a b -> mech_outcome a (send_ok b)
 | MO_err b m : same_counts a b -> a_state b = a_state a -> a_authorized b = a_authorized a -> mech_outcome a (b, [R_Error m])
 | MO_data b d : same_counts a b -> a_state b = WaitingForData -> mech_outcome a (b, [R_Data d])
-| MO_crash b : mech_outcome a (crash b).
+| MO_crash b : same_counts a b -> mech_outcome a (crash b).
 
 Lemma mech_outcome_outcome a r : mech_outcome a r -> outcome a r.
 Proof. intros []; [apply O_rej|apply O_ok|apply O_err|apply O_data|apply O_crash]; auto. Qed.
 
 Ltac mleaf :=
-  first [ apply MO_rej; sc | apply MO_ok; sc | apply MO_crash | apply MO_data; [sc | fs; reflexivity] ].
+  first [ apply MO_rej; sc | apply MO_ok; sc | apply MO_crash; sc | apply MO_data; [sc | fs; reflexivity] ].
 Ltac msplit_head :=
   match goal with
   | |- mech_outcome _ (if ?x then _ else _) => destruct x
@@ -71,13 +71,13 @@ Proof.
   - apply MO_ok. destruct H. split; congruence.
   - apply MO_err; try congruence. destruct H. split; congruence.
   - apply MO_data; auto. destruct H. split; congruence.
-  - apply MO_crash.
+  - apply MO_crash. destruct H. split; congruence.
 Qed.
 
 Lemma mo_handle_auth e a args : mech_outcome a (handle_auth e a args).
 Proof.
   unfold handle_auth. destruct (is_empty args); [apply MO_rej; split; reflexivity|].
-  destruct (find_blank args) as [fb i]. destruct (skip_blank (e_asserts e) args i) as [j|]; [|apply MO_crash].
+  destruct (find_blank args) as [fb i]. destruct (skip_blank (e_asserts e) args i) as [j|]; [|apply MO_crash; split; reflexivity].
   cbv zeta. destruct (find_mech e (firstn (N.to_nat i) args)) as [m|].
   - eapply mo_frame; [| | |apply mo_process_data]; try reflexivity. split; reflexivity.
   - apply MO_rej. split; reflexivity.
@@ -90,7 +90,7 @@ Proof.
   - apply mech_outcome_outcome, mo_handle_auth.
   - apply O_err; [split|..]; reflexivity.
   - apply O_rej. split; reflexivity.
-  - destruct (a_mech a); [apply mech_outcome_outcome, mo_process_data | apply O_crash].
+  - destruct (a_mech a); [apply mech_outcome_outcome, mo_process_data | apply O_crash; split; reflexivity].
   - apply O_disc.
   - apply O_authd. destruct (a_state a); try discriminate. reflexivity.
   - destruct (e_fd_possible e); [|apply O_err; [split|..]; reflexivity].
@@ -100,7 +100,7 @@ Qed.
 Theorem outcome_process_line e a line : outcome a (process_line e a line).
 Proof.
   unfold process_line. destruct (negb (validate_ascii line)); [apply O_err; [split|..]; reflexivity|].
-  destruct (find_blank line) as [fb i]. destruct (skip_blank (e_asserts e) line i) as [j|]; [|apply O_crash].
+  destruct (find_blank line) as [fb i]. destruct (skip_blank (e_asserts e) line i) as [j|]; [|apply O_crash; split; reflexivity].
   unfold handle. destruct (a_state a) eqn:Hs; try apply O_none; apply outcome_run_action; rewrite Hs.
   - apply disp_auth_ok.
   - apply disp_data_ok.
